@@ -32,6 +32,8 @@ use trust_runtime::debug::{
 
 #[path = "c17/rt.rs"]
 mod rt;
+#[path = "c17/ex.rs"]
+mod ex;
 
 /// Number of operations that hit the watchdog in this process.  A hang is a violation of the
 /// property; after a few of them the remaining cases are skipped (each costs a full watchdog
@@ -819,19 +821,24 @@ fn bp_op(rng: &mut Rng, mon: &mut Mon, out: &mut Out) -> (String, Result<String,
 }
 
 pub fn run(args: &Args) -> i32 {
+    if args.extra.contains_key("shadow") {
+        ex::probe_shadow();
+        return 0;
+    }
     if args.extra.contains_key("probe") {
         rt::probe(args.seed);
         return 0;
     }
     let nops = args.extra_usize("ops", 60);
     let rt_cases = args.extra_usize("rt", 0) as u64;
+    let ex_cases = args.extra_usize("ex", 0) as u64;
     let rt_runs = args.extra_usize("rt_runs", 3);
     let rt_all_threads = args.extra_usize("rt_all_threads", 0) != 0;
     let jobs = args.extra_usize("jobs", 4).max(1);
     let watchdog = Duration::from_millis(args.extra_usize("watchdog_ms", 5000) as u64);
     let numbers: Vec<u64> = match args.only {
         Some(n) => vec![n],
-        None => (0..args.cases + rt_cases).collect(),
+        None => (0..args.cases + rt_cases + ex_cases).collect(),
     };
     // Cases are independent (own DebugControl / Runtime, own Rng stream): run them on a few worker
     // threads and merge the per-case outputs in case order, so the file does not depend on `jobs`.
@@ -857,6 +864,14 @@ pub fn run(args: &Args) -> i32 {
                     run_mon_case(n, &mut rng, nops, watchdog, &mut out);
                     out.count("cases_mon");
                     Ok(out)
+                } else if n >= args.cases + rt_cases {
+                    match ex::run_ex_case(n, &mut rng, watchdog, &mut out) {
+                        Ok(()) => {
+                            out.count("cases_ex");
+                            Ok(out)
+                        }
+                        Err(e) => Err(format!("case {n}: {e}")),
+                    }
                 } else {
                     match rt::run_rt_case(n, &mut rng, watchdog, rt_all_threads, rt_runs, &mut out) {
                         Ok(()) => {
